@@ -18,6 +18,8 @@
 
 #include "importproject.h"
 
+#include "errortypes.h"
+
 #include "path.h"
 #include "pathmatch.h"
 #include "settings.h"
@@ -617,6 +619,12 @@ namespace {
                 errors.emplace_back(filename + ": Can not evaluate condition '" + mCondition + "': " + r.what());
                 return false;
             }
+            catch (const InternalError& e)
+            {
+                // TokenList::createAst() reports ill-formed expressions with InternalError
+                errors.emplace_back(filename + ": Can not evaluate condition '" + mCondition + "': " + e.errorMessage);
+                return false;
+            }
         }
 
         static bool evalCondition(const std::string& condition, const ProjectConfiguration &p) {
@@ -642,6 +650,9 @@ namespace {
                         Token::createMutualLinks(lpar.top(), tok2);
                         lpar.pop();
                     }
+                    // only parentheses are linked here; the AST builder needs links for every kind of bracket
+                    else if (tok2->str() == "[" || tok2->str() == "]" || tok2->str() == "{" || tok2->str() == "}")
+                        throw std::runtime_error("unsupported '" + tok2->str() + "' in condition " + condition);
                 }
                 if (!lpar.empty())
                     throw std::runtime_error("'(' without closing ')'!");
